@@ -66,7 +66,8 @@ def generate(seed, n, max_tokens, scratch=None, mutants=2, procs=4, grammar=None
                 if key in seen:
                     continue
                 seen.add(key)
-                out.append({"kind": r["kind"], "op": r.get("op", ""), "w": list(r["w"]), "ps": sorted(r.get("ps", []))})
+                out.append({"kind": r["kind"], "op": r.get("op", ""), "w": list(r["w"]), "ps": sorted(r.get("ps", [])),
+                            "pp": sorted(tuple(x) for x in r.get("pp", []))})
         if not any(r["kind"] == "sentence" for r in out):
             raise MachineryError("SentenceGen produced no sentence")
         return out
@@ -84,15 +85,16 @@ def sentences(seed, n, max_tokens, scratch=None, cover=0, stats=None):
     cases = [c for c in generate(seed, want, max_tokens, scratch=scratch, mutants=0, procs=8 if cover > 1 else 4) if c["kind"] == "sentence"]
     if cover <= 1:
         return [c["w"] for c in cases][:n]
+    # coverage items: productions and (parent production, child production) pairs, i.e. which alternative of a
+    # nonterminal was taken in which right-hand side
+    items = [set(("p", p) for p in c["ps"]) | set(("pp",) + tuple(x) for x in c["pp"]) for c in cases]
     covered, picked, rest = set(), [], list(range(len(cases)))
-    allp = set()
-    for c in cases:
-        allp.update(c["ps"])
+    allp = set().union(*items) if items else set()
     while rest and covered != allp and len(picked) < n:
-        best = max(rest, key=lambda i: (len(set(cases[i]["ps"]) - covered), -len(cases[i]["w"])))
-        if not set(cases[best]["ps"]) - covered:
+        best = max(rest, key=lambda i: (len(items[i] - covered), -len(cases[i]["w"])))
+        if not items[best] - covered:
             break
-        covered.update(cases[best]["ps"])
+        covered.update(items[best])
         picked.append(best)
         rest.remove(best)
     for i in rest:
@@ -100,9 +102,13 @@ def sentences(seed, n, max_tokens, scratch=None, cover=0, stats=None):
             break
         picked.append(i)
     if stats is not None:
-        stats.update({"derived": len(cases), "returned": len(picked), "productions_applied_by_some_derivation": len(allp),
-                      "productions_applied_by_returned": len(set().union(*[set(cases[i]["ps"]) for i in picked])) if picked else 0,
-                      "productions_in_grammar": len(emboss_grammar()["prods"])})
+        got = set().union(*[items[i] for i in picked]) if picked else set()
+        stats.update({"derived": len(cases), "returned": len(picked),
+                      "productions_in_grammar": len(emboss_grammar()["prods"]),
+                      "productions_applied_by_some_derivation": len([x for x in allp if x[0] == "p"]),
+                      "productions_applied_by_returned": len([x for x in got if x[0] == "p"]),
+                      "parent_child_pairs_applied_by_some_derivation": len([x for x in allp if x[0] == "pp"]),
+                      "parent_child_pairs_applied_by_returned": len([x for x in got if x[0] == "pp"])})
     return [cases[i]["w"] for i in picked]
 
 
